@@ -4,6 +4,7 @@ EXTENDS Grammar, Json
 VARIABLE x
 ASSUME PrintT("VERIF-GEN " \o ToJson([schema |-> Schema]))
 ASSUME \A d \in Decs : PrintT("VERIF-GEN " \o ToJson([dec |-> d, cases |-> CasesOf(d)]))
+ASSUME \A d \in {"bam", "auxtext", "samrec", "cram"} : PrintT("VERIF-GEN " \o ToJson([pdec |-> d, pairs |-> DirectedPairs(d)]))
 Init == x = 0
 Next == UNCHANGED x
 Spec == Init /\ [][Next]_x
